@@ -139,6 +139,12 @@ def run(check, mirror, tier):
     for nv in range(1, maxvars + 1):
         for kinds in itertools.product("LR", repeat=nv):
             mk(kinds)
+    import checks.C01_ops as ops
+    from checks.C02 import DecUniverse
+    U = fv.Universe(mirror)
+    U.dec = DecUniverse(mirror)
+    crate_num = MirCrate(mirror, ["feel-evaluator", "feel-number", "feel"], overflow_checks=True)
+    ops.jobs_for(check, mirror, rb, crate, crate_num, U, jobs, tier, KNOWN_PRED)
     run_parallel(check, jobs)
 
 
